@@ -104,8 +104,9 @@ pub fn run_cases(args: &Args, rep: &mut Report, cases: Vec<Case>, plan: &Plan) {
         done: bool,
         note: Option<String>,
         extra_violations: Vec<explore::FoundViolation>,
+        partial: Option<explore::Stats>,
     }
-    let states: Vec<Mutex<St>> = cases.iter().map(|_| Mutex::new(St { best: None, levels: Vec::new(), last: None, prev: None, done: false, note: None, extra_violations: Vec::new() })).collect();
+    let states: Vec<Mutex<St>> = cases.iter().map(|_| Mutex::new(St { best: None, levels: Vec::new(), last: None, prev: None, done: false, note: None, extra_violations: Vec::new(), partial: None })).collect();
     for (li, &k) in plan.ks.iter().enumerate() {
         let pending: Vec<usize> = (0..cases.len()).filter(|i| !states[*i].lock().unwrap().done && k <= cases[*i].max_k).collect();
         if pending.is_empty() || (li > 0 && Instant::now() >= deadline) {
@@ -150,13 +151,12 @@ pub fn run_cases(args: &Args, rep: &mut Report, cases: Vec<Case>, plan: &Plan) {
             let mut st = states[i].lock().unwrap();
             st.levels.push((k, stx.executions, dt));
             if let Some(cap) = &stx.capped {
-                st.note = Some(format!("level k={} aborted: {cap}", bound_str(Some(k))));
+                st.note = Some(format!("level k={} aborted after {} executions: {cap}", bound_str(Some(k)), stx.executions));
                 st.done = true;
-                // executions of an incomplete level are still real: keep their violations
-                st.extra_violations.extend(stx.violations);
-                if st.best.is_none() {
-                    st.best = None;
-                }
+                // executions of an incomplete level are still real executions of the real code: their
+                // violations, states and counts are kept; the bound reported as completed stays at k-1
+                st.extra_violations.extend(stx.violations.iter().cloned());
+                st.partial = Some(stx);
                 return;
             }
             st.prev = st.last;
@@ -239,6 +239,16 @@ pub fn run_cases(args: &Args, rep: &mut Report, cases: Vec<Case>, plan: &Plan) {
             };
             for v in st.extra_violations {
                 stats.violations.push(v);
+            }
+            if let Some(p) = st.partial {
+                // an aborted deeper level re-executes the schedules of the completed one first: take the larger counts
+                if p.executions > stats.executions {
+                    stats.executions = p.executions;
+                    stats.transitions = p.transitions;
+                }
+                stats.states.extend(p.states);
+                stats.outcomes.extend(p.outcomes);
+                stats.witnesses |= p.witnesses;
             }
             (i, explore::Deepening { stats, bound_completed: bound, levels: st.levels, note: st.note })
         })
